@@ -50,7 +50,9 @@ def urls_from_text(string):
             candidates = url.split("](", 1)
 
         for candidate in candidates:
-            candidate = trim_irrelevant_punctuation(candidate.strip())
+            # NOTE: trimming might reveal whitespace (e.g. an ideographic space
+            # is in the range of characters a tld can be made of)
+            candidate = trim_irrelevant_punctuation(candidate.strip()).strip()
 
             # NOTE: what remains once split and trimmed might not be a url anymore
             if not URL_WITH_PROTOCOL_RE.match(candidate):
